@@ -115,6 +115,8 @@ def run():
         ck.coverage["translator_error"] = info["error"]
     g = c10_gen.Gen(ck.rng)
     nprog = ck.n(260, 2500)
+    pnames = info.get("param_names", {}) if "error" not in info else {}
+    named_of = dict((tuple(p), n) for p, _, n in info.get("sigs", [])) if "error" not in info else {}
 
     progs = []
     for i in range(nprog):
@@ -175,8 +177,15 @@ def run():
                     args = "[ARel; AScalar; ARel]"
                 if st.kind == "group":
                     args = "[AScalar; AFunc; ARel]"
-                cases.append({"stream": "edit-d-unknown-named", "src": p.text(upto=k, extra=["%s zz:1%s" % (fname, rest)]), "kind": "call", "pi": pi,
-                              "coq": "call %s %s [%s]" % (path, args, cs("zz")), "site": st.kind})
+                # an unknown name: arbitrary, the name of one of the callee's POSITIONAL parameters, or a named
+                # parameter of some other function -- none of them is a named parameter of this function
+                own_named = set(named_of.get(tuple(st.sig), []))
+                pool = ["zz"] + [n for n in pnames.get(tuple(st.sig), []) if n not in own_named] + [n for n in ("side", "rolling", "rows") if n not in own_named]
+                un = g.pick(pool)
+                before = g.chance(0.5)
+                txt = "%s %s:1%s" % (fname, un, rest) if before else "%s %s:1" % (st.text, un)
+                cases.append({"stream": "edit-d-unknown-named", "src": p.text(upto=k, extra=[txt]), "kind": "call", "pi": pi,
+                              "coq": "call %s %s [%s]" % (path, args, cs(un)), "site": st.kind, "name": un})
         # user / std scalar functions
         fr = p.frames[-1]
         a = g.num_ref(fr)
@@ -184,13 +193,15 @@ def run():
             for f in p.funcs:
                 cases.append({"stream": "edit-c-surplus-positional", "src": p.text(extra=["derive {zz = (%s %s 7)}" % (f, a[0])]), "kind": "call", "pi": pi,
                               "coq": "apply_fn (mkSig [PAny] []) [AScalar; AScalar] []", "site": "user-fn"})
-                cases.append({"stream": "edit-d-unknown-named", "src": p.text(extra=["derive {zz = (%s zz:1 %s)}" % (f, a[0])]), "kind": "call", "pi": pi,
-                              "coq": "apply_fn (mkSig [PAny] []) [AScalar] [%s]" % cs("zz"), "site": "user-fn"})
+                un = g.pick(["zz", "v"])      # `v` is the name of the function's positional parameter
+                cases.append({"stream": "edit-d-unknown-named", "src": p.text(extra=["derive {zz = (%s %s:1 %s)}" % (f, un, a[0])]), "kind": "call", "pi": pi,
+                              "coq": "apply_fn (mkSig [PAny] []) [AScalar] [%s]" % cs(un), "site": "user-fn", "name": un})
             if g.chance(0.3):
                 cases.append({"stream": "edit-c-surplus-positional", "src": p.text(extra=["derive {zz = (math.round 1 %s 7)}" % a[0]]), "kind": "call", "pi": pi,
                               "coq": "call [%s; %s] [AScalar; AScalar; AScalar] []" % (cs("math"), cs("round")), "site": "std-fn"})
-                cases.append({"stream": "edit-d-unknown-named", "src": p.text(extra=["derive {zz = (math.round zz:1 1 %s)}" % a[0]]), "kind": "call", "pi": pi,
-                              "coq": "call [%s; %s] [AScalar; AScalar] [%s]" % (cs("math"), cs("round"), cs("zz")), "site": "std-fn"})
+                un = g.pick(["zz", "n_digits", "column"])
+                cases.append({"stream": "edit-d-unknown-named", "src": p.text(extra=["derive {zz = (math.round %s:1 1 %s)}" % (un, a[0])]), "kind": "call", "pi": pi,
+                              "coq": "call [%s; %s] [AScalar; AScalar] [%s]" % (cs("math"), cs("round"), cs(un)), "site": "std-fn", "name": un})
         # (e) scalar where a relation is required
         if g.chance(0.5):
             lit = g.pick(["5", "\"t\"", "3.5", "true", "null"])
@@ -200,6 +211,65 @@ def run():
                           "coq": "call [%s] [AScalar; AScalar; ARel] []" % cs("join"), "site": "join"})
             cases.append({"stream": "edit-e-scalar-for-relation", "src": p.text(extra=["append %s" % lit]), "kind": "call", "pi": pi,
                           "coq": "call [%s] [AScalar; ARel] []" % cs("append"), "site": "append"})
+
+    # (e') a NAME that denotes a scalar (let-bound constant) where a relation is required; the model decides what the name
+    #      is in a relation position (rel_arg_kind: this/that shadowed, root declarations hide the database)
+    for pi, p in enumerate(progs):
+        if not g.chance(0.6):
+            continue
+        kname = g.fresh("k")
+        val = g.pick(["5", "\"t\"", "2.5", "true", "2 + 3"])
+        decl = "let %s = %s" % (kname, val)
+        fr = p.frames[-1]
+        root = list(p.root) + [(kname, "NValue")]
+        p2 = type("P", (), {"root": root})()
+        sc = coq_scope(p2, fr)
+        body = p.text()
+        main = body.split("\n")[-1]
+        head = "\n".join(body.split("\n")[:-1] + [decl])
+        variants = [("from", head + "\nfrom %s" % kname, "[k]", "from"),
+                    ("join", head + "\n" + main + " | join %s%s true" % (g.pick(["", "side:left "]), kname), "[k; AScalar; ARel]", "join"),
+                    ("append", head + "\n" + main + " | append %s" % kname, "[k; ARel]", "append")]
+        for site, src, args, fn in g.r.sample(variants, 2):
+            cases.append({"stream": "edit-e-scalar-for-relation", "src": src, "kind": "call", "pi": pi,
+                          "coq": "match rel_arg_kind %s ([], %s) with Some k => call [%s] %s [] | None => AErr EAmbiguous end" % (sc, cs(kname), cs(fn), args),
+                          "site": site + ":let-constant", "name": kname})
+        # control: the constant is fine as a value
+        cases.append({"stream": "well-scoped", "src": head + "\n" + main + " | derive {zz = %s}" % kname, "kind": "value", "pi": pi,
+                      "coq": "lower_ref %s ([], %s)" % (sc, cs(kname)), "ref": kname})
+
+    # (a'/b') inside a join CONDITION, with both operands fully known: `this` = the frame so far, `that` = the joined source
+    for pi, p in enumerate(progs):
+        for k in range(1, len(p.frames)):
+            fr = p.frames[k]
+            if not fr.closed or len(fr.inputs) >= 3 or not g.chance(0.5):
+                continue
+            uniq = [r for r in g.refs(fr) if not r[1][0] and r[2][0] != "infer"]
+            if not uniq:
+                continue
+            txt, ident, exp = g.pick(uniq)
+            n = ident[1]
+            alias = g.fresh("y")
+            other = g.fresh("q")
+            right = c10_gen.Frame([c10_gen.Input(alias, [n, other], False)])
+            rtxt = "%s = [{%s = 1, %s = 2}]" % (alias, n, other)
+            qual = g.pick([r for r in g.refs(fr) if r[1][0]] or [None])
+            conds = ["(%s == 1)" % n, "(%s > 0 && %s.%s == 2)" % (n, alias, other)]
+            if qual is not None:
+                conds.append("(%s == %s.%s && %s > 0)" % (qual[0], alias, other, n))
+            cases.append({"stream": "edit-b-ambiguous-name", "src": p.text(upto=k, extra=["join %s%s %s" % (g.pick(["", "side:left "]), rtxt, g.pick(conds))]),
+                          "kind": "edit", "pi": pi, "coq": "lower_ref %s %s" % (coq_scope(p, fr, right), coq_ident(([], n))),
+                          "site": "join-condition(this+that)", "name": n, "frame": fr.describe()})
+            # well-scoped counterpart: the qualified spellings resolve, each to its own side
+            cases.append({"stream": "well-scoped", "src": p.text(upto=k, extra=["join %s (this.%s == that.%s)" % (rtxt, n, n)]), "kind": "base-variant", "pi": pi,
+                          "coq": None})
+            taken = set(fr.all_cols()) | set(fr.input_names()) | set(n0 for n0, _ in p.root) | {n, other, alias}
+            cand = [d for d in p.dropped if d not in taken]
+            if cand:
+                d = g.pick(cand)
+                cases.append({"stream": "edit-a-dropped-column", "src": p.text(upto=k, extra=["join %s (%s == %s.%s)" % (rtxt, d, alias, other)]),
+                              "kind": "edit", "pi": pi, "coq": "lower_ref %s %s" % (coq_scope(p, fr, right), coq_ident(([], d))),
+                              "site": "join-condition(this+that)", "name": d, "frame": fr.describe()})
 
     # distinct by program text + stream
     seen, uniq = set(), []
@@ -252,6 +322,17 @@ def run():
             ck.stat(st, "base:" + c["impl"])
             if c["impl"] == "panic":
                 ck.stat(st, "base-panic(C12)")
+            continue
+        if c["kind"] in ("value", "base-variant") and base_ok.get(c["pi"], False):
+            ck.count(st, key)
+            mv = c.get("model")
+            ck.stat(st, "%s:%s" % (c["kind"], c["impl"]))
+            if c["impl"] not in ("ok", "panic") or (c["kind"] == "value" and mv is not None and outcome_kind(mv) != "OValue"):
+                ck.violation("well-scoped program rejected (or the model does not see a value): %s" % c["impl"],
+                             dict(rep, model=str(mv), answer=str(a)[:300]))
+            continue
+        if c["kind"] in ("value", "base-variant"):
+            ck.stat(st, "skipped:base-program-rejected")
             continue
         if not base_ok.get(c["pi"], False):
             # the generator produced a base program the implementation rejects: its edits prove nothing
